@@ -339,7 +339,7 @@ def c06_extra(Job, tier):
 
 
 def c07_extra(Job, tier):
-    return trackcheck_jobs(Job) + mmb_jobs(Job) + write_span_jobs(Job) + selector_jobs(Job)
+    return trackcheck_jobs(Job) + mmb_jobs(Job) + write_span_jobs(Job) + selector_jobs(Job) + [j for j in names_jobs(Job) if "less" in j.name]
 
 
 # ---- destination directory / make_name (C12) ---------------------------------------------------------------------------
